@@ -374,6 +374,10 @@ func (w *World) runPath(fn *ssa.Function, prefix []Decision, cfg *Config, sol *S
 				out.Kind = "violation"
 				out.Label = "deadlock"
 			}
+			if e.kind == "unwind" && cfg.UnwindLabel != "" {
+				out.Kind = "violation"
+				out.Label = cfg.UnwindLabel
+			}
 		case goPanic:
 			out.Kind = "violation"
 			out.Label = "panic"
